@@ -103,7 +103,12 @@ func vExplore(c *vCtx, prop string, scn vScn, model string, bound int, deadline 
 	stack := []item{{nil, 0}}
 	first := true
 	idx := 0
+	stopEarly := os.Getenv("VERIF_STOP_ON_VIOLATION") != "" // self-test aid: one counterexample is enough
 	for len(stack) > 0 {
+		if stopEarly && len(c.res.Violations) > 0 {
+			st.complete = false
+			break
+		}
 		it := stack[len(stack)-1]
 		stack = stack[:len(stack)-1]
 		if !deadline.IsZero() && time.Now().After(deadline) {
